@@ -177,7 +177,6 @@ class GroupBase:
             return np.zeros(0)
 
         ret = [''] * n
-        _type_set = False
 
         models = self.idx2model(idx, allow_none=allow_none)
 
@@ -189,15 +188,14 @@ class GroupBase:
             else:
                 val = default
 
-            # deduce the type for ret
-            if not _type_set:
-                if isinstance(val, str):
-                    ret = [''] * n
-                else:
-                    ret = np.zeros(n)
-                _type_set = True
-
             ret[i] = val
+
+        # numerical values are returned in an array; if any value is a string
+        # (e.g., device idx), all values are returned as they are
+        if not any(isinstance(val, str) for val in ret):
+            values = ret
+            ret = np.zeros(n)
+            ret[:] = values
 
         if single:
             ret = ret[0]
